@@ -46,6 +46,7 @@ class Cfg:
     dfiles: tuple = ()
     msgs: str = "-"
     metadata_only: bool = False
+    put_did: str = ""               # destination id as written in the put request (same value, maybe another width)
 
     def to_json(self) -> dict:
         d = dict(self.__dict__)
@@ -88,9 +89,9 @@ class Cfg:
 
     def put_line(self) -> str:
         if self.metadata_only:
-            return (f"put S dest={self.did} src=- dst=- mode={self.put_mode} "
+            return (f"put S dest={self.put_did or self.did} src=- dst=- mode={self.put_mode} "
                     f"closure={self.put_closure} msgs={self.msgs}")
-        return (f"put S dest={self.did} src={self.src_path} dst={self.dst_path} mode={self.put_mode} "
+        return (f"put S dest={self.put_did or self.did} src={self.src_path} dst={self.dst_path} mode={self.put_mode} "
                 f"closure={self.put_closure} msgs={self.msgs}")
 
     @property
@@ -103,7 +104,7 @@ class Cfg:
 
     @property
     def idw(self) -> int:
-        return max(int(self.sid.split("/")[1]), int(self.did.split("/")[1]))
+        return max(int(self.sid.split("/")[1]), int((self.put_did or self.did).split("/")[1]))
 
     @property
     def hdr_len(self) -> int:
